@@ -129,6 +129,32 @@ def audit_axioms(prop_id: str):
     return len(names), discharged, details, p.returncode == 0 and discharged == len(names)
 
 
+def audit_names(module: str, qualified):
+    """`#print axioms` for fully qualified names of another module; returns (n_ok, details)"""
+    src = f"import {module}\n" + "".join(f"#print axioms {n}\n" for n in qualified)
+    tmp = LEAN / f".audit_x_{os.getpid()}.lean"
+    tmp.write_text(src)
+    try:
+        p = subprocess.run(["lake", "env", "lean", str(tmp)], cwd=LEAN, stdout=subprocess.PIPE,
+                           stderr=subprocess.STDOUT, text=True)
+    finally:
+        tmp.unlink(missing_ok=True)
+    flat = re.sub(r"\s+", " ", p.stdout)
+    okc = 0
+    bad = []
+    for n in qualified:
+        m = re.search(r"'" + re.escape(n) + r"' (does not depend on any axioms|depends on axioms: \[([^\]]*)\])", flat)
+        if not m:
+            bad.append(f"{n}: no axiom report")
+            continue
+        axs = set(a.strip() for a in (m.group(2) or "").split(",") if a.strip())
+        if axs - ALLOWED_AXIOMS:
+            bad.append(f"{n}: forbidden axioms {sorted(axs - ALLOWED_AXIOMS)}")
+        else:
+            okc += 1
+    return okc, bad
+
+
 def leanchecker(mods):
     p = subprocess.run(
         ["lake", "env", "leanchecker", *mods],
